@@ -98,6 +98,8 @@ def _srcs(repo, d, exclude=()):
 
 def _config_h(repo, dst):
     src = os.path.join(repo, "config.h")
+    if not os.path.exists(src) and os.path.exists("/repo/config.h"):
+        src = "/repo/config.h"      # an unconfigured scratch worktree of the same project on the same machine
     if os.path.exists(src):
         shutil.copy(src, os.path.join(dst, "config.h"))
     else:
@@ -111,7 +113,9 @@ def _config_h(repo, dst):
                     '#define HAVE_SYSEXITS_H 1\n#define HAVE_STRING_H 1\n'
                     '#define HAVE_STDLIB_H 1\n#define HAVE_STDINT_H 1\n'
                     '#define HAVE_INTTYPES_H 1\n#define HAVE_MEMORY_H 1\n'
-                    '#define STDC_HEADERS 1\n')
+                    '#define STDC_HEADERS 1\n#define HAVE_TIMEGM 1\n#define HAVE_STRINGS_H 1\n'
+                    '#define HAVE_DECL_STRCASECMP 1\n#define HAVE_DECL_VASPRINTF 0\n#define SIZEOF_VOID_P 8\n'
+                    '#ifdef __SIZEOF_INT128__\n#define HAVE_128_BIT_INT 1\n#endif\n')
 
 
 def _build_tools(repo, out, variant):
